@@ -576,7 +576,14 @@ impl Database {
             };
             match i32::from_str_radix(&current_text, 10) {
                 Ok(current) => {
-                    let next = (current + inc).to_string();
+                    let next = match current.checked_add(inc) {
+                        Some(next) => next.to_string(),
+                        None => {
+                            return Response::Error {
+                                msg: "Increment overflows the key".to_string(),
+                            }
+                        }
+                    };
                     let new_value = match old_value {
                         // An existing key keeps growing its version and keeps what the
                         // snapshot needs to find it on disk
